@@ -3,6 +3,8 @@
 //        number tree rooted at <root> through QPDFNumberTreeObjectHelper(auto_repair = false):
 //        forward iteration of the whole tree (stopped after <cap> entries) and one find of <probe>
 //        -> entries=<n> warns=<n> done=<0|1> find=<ok|loop|badnode|minus1|err:...>
+//   c4nnopen <hex pdf> <root obj id> <cap>   helper with auto_repair + validate(true), then iteration of the result
+//        -> valid=<0|1> repaired=<n> gaveup=<n> warns=<n> entries=<n> done=<0|1>
 //   c4parse <max_nesting|-> <max_errors|-> <container_damaged|-> <hex object text>
 //        QPDFObjectHandle::parse with a context, limits set for this case and restored afterwards
 //        -> <array|dict|null|other> <nesting|budget|giveup|container|-> w=<warnings>
@@ -67,6 +69,42 @@ namespace
         }
         return "entries=" + std::to_string(entries) + " warns=" + std::to_string(warns) + " done=" + (done ? "1" : "0") + iter_err +
             " find=" + f;
+    }
+
+    // c4nnopen <hex pdf> <root obj id> <cap>: what the library does when it opens a tree: helper with auto_repair,
+    // validate(true); then the (possibly rebuilt) tree is iterated
+    //   -> valid=<0|1> repaired=<n> gaveup=<n> warns=<n> entries=<n> done=<0|1>
+    std::string c4nnopen(std::vector<std::string> const& a)
+    {
+        if (a.size() != 3) return "?args";
+        std::string data = unhex(a[0]);
+        int root = std::stoi(a[1]);
+        long long cap = std::stoll(a[2]);
+        QPDF q;
+        q.setSuppressWarnings(true);
+        q.processMemoryFile("c4nnopen", data.data(), data.size());
+        (void)q.getWarnings();
+        QPDFNumberTreeObjectHelper t(q.getObject(root, 0), q, true);
+        bool valid = t.validate(true);
+        size_t repaired = 0, gaveup = 0;
+        auto ws = q.getWarnings();
+        for (auto const& w: ws) {
+            std::string m = w.getMessageDetail();
+            if (m.find("attempting to repair after error") != std::string::npos) ++repaired;
+            if (m.find("reachable more than once") != std::string::npos) ++gaveup;
+        }
+        long long entries = 0;
+        bool done = true;
+        try {
+            for (auto it = t.begin(); it != t.end(); ++it) {
+                ++entries;
+                if (entries >= cap) { done = false; break; }
+            }
+        } catch (QPDFExc&) {
+            done = false;
+        }
+        return std::string("valid=") + (valid ? "1" : "0") + " repaired=" + std::to_string(repaired) + " gaveup=" + std::to_string(gaveup) +
+            " warns=" + std::to_string(ws.size()) + " entries=" + std::to_string(entries) + " done=" + (done ? "1" : "0");
     }
 
     std::string c4parse(std::vector<std::string> const& a)
@@ -195,6 +233,7 @@ namespace
 
     Reg r1("c4nn", c4nn);
     Reg r2("c4parse", c4parse);
+    Reg r5("c4nnopen", c4nnopen);
     Reg r3("c4conv", dispatch<false>);
     Reg r4("c4fits", dispatch<true>);
 } // namespace
